@@ -12,6 +12,10 @@
 EXTENDS Integers, Sequences, Values
 
 KindOfType(t) == IF t = "$" THEN "s" ELSE "n"
+\* a whole record has the kind of its TYPE ("u:" + name): it can be assigned to / passed as a record of the same TYPE
+\* and is no operand of any operator or built-in
+KindOfLeaf(e) == IF e.t = "U" THEN "u:" \o e.ty ELSE KindOfType(e.t)
+Scalar(k) == k \in {"n", "s"}
 
 \* built-in functions: parameter kinds and result kind
 Sig(name, n) ==
@@ -40,7 +44,7 @@ ArgsOK(args, ps, j) ==
 
 Kind(e) ==
   CASE e.k = "lit" -> KindOfType(e.t)
-    [] e.k = "var" -> KindOfType(e.t)
+    [] e.k = "var" -> KindOfLeaf(e)
     [] e.k = "idx" -> IF \A j \in 1..Len(e.subs) : Kind(e.subs[j]) = "n" THEN KindOfType(e.t) ELSE "err"
     [] e.k = "par" -> Kind(e.e)
     [] e.k = "un" -> IF Kind(e.e) = "n" THEN "n" ELSE "err"
@@ -48,8 +52,8 @@ Kind(e) ==
          LET a == Kind(e.l)
              b == Kind(e.r)
          IN IF a = "err" \/ b = "err" THEN "err"
-            ELSE IF e.op = "+" THEN (IF a = b THEN a ELSE "err")
-            ELSE IF e.op \in RelOps THEN (IF a = b THEN "n" ELSE "err")
+            ELSE IF e.op = "+" THEN (IF a = b /\ Scalar(a) THEN a ELSE "err")
+            ELSE IF e.op \in RelOps THEN (IF a = b /\ Scalar(a) THEN "n" ELSE "err")
             ELSE (IF a = "n" /\ b = "n" THEN "n" ELSE "err")
     [] e.k = "bcall" -> LET s == Sig(e.n, Len(e.args)) IN IF ArgsOK(e.args, s.ps, 1) THEN s.r ELSE "err"
     [] e.k = "ucall" -> IF ArgsOK(e.args, e.ps, 1) THEN e.r ELSE "err"
@@ -57,8 +61,9 @@ Kind(e) ==
 \* a statement: [k |-> "need", e, kind] - expression e stands where kind ("n", "s", "any") is needed
 \*              [k |-> "caseof", subj, test] - a CASE test must have the kind of the subject
 WellKinded(s) ==
-  CASE s.k = "need" -> LET kd == Kind(s.e) IN kd # "err" /\ (s.kind = "any" \/ kd = s.kind)
-    [] s.k = "caseof" -> Kind(s.subj) # "err" /\ Kind(s.test) = Kind(s.subj)
+  \* "top": the position applies no operator to the value (the subject of a SELECT CASE that has only CASE ELSE)
+  CASE s.k = "need" -> LET kd == Kind(s.e) IN kd # "err" /\ (IF s.kind = "any" THEN Scalar(kd) ELSE IF s.kind = "top" THEN TRUE ELSE kd = s.kind)
+    [] s.k = "caseof" -> Scalar(Kind(s.subj)) /\ Kind(s.test) = Kind(s.subj)
 
 (***************************************************************************)
 (* Single ill-forming edits and the family of error each must produce           *)
